@@ -129,6 +129,19 @@ def dupOf (S : Schema) (node x : DNode) : Bool :=
 def dupScan (S : Schema) (others : List DNode) (node : DNode) : Bool :=
   !S.isDupInst node.sid && others.any (dupOf S node)
 
+/-- the first element satisfying `p` has another one behind it -/
+def firstHasNext {α : Type} (p : α → Bool) (l : List α) : Bool :=
+  match l.dropWhile (fun x => !p x) with
+  | _ :: later => later.any p
+  | [] => false
+
+/-- `lyd_validate_duplicates`, hash branch (`node->parent->children_ht`, parents with at least `LYD_HT_MIN_ITEMS` children):
+`chain` = the records of the collision chain of `node->hash` in table order (`node` itself is one of them).
+`lyht_find_next_with_collision_cb` first looks for the FIRST record the callback `lyd_val_dup_val_equal` calls the same instance
+(it ignores pointer identity, so this may be `node` or an earlier twin), then for one more behind it. -/
+def dupHash (S : Schema) (chain : List DNode) (node : DNode) : Bool :=
+  !S.isDupInst node.sid && firstHasNext (dupOf S node) chain
+
 /-- the direct schema parent when it is a case, with its choice -/
 def caseOf (X : SchemaX) (sid : Nat) : Option (STree × STree) :=
   match sparent X.base sid with
